@@ -156,11 +156,15 @@ def run(ctx, tier):
             base = probe.call(fn, *_copy(a), **_copy(k))
             with np.errstate(all="raise"), warnings.catch_warnings():
                 warnings.simplefilter("error", RuntimeWarning)
+                if _name(fn).split(".")[-1] not in ("alt40mcp", "alt40fms"):
+                    # ... and every other warning too (pytest -W error, warnings.simplefilter("error")); the two renamed
+                    # aliases of BDS 4,0 are documented to warn
+                    warnings.simplefilter("error")
                 alt = probe.call(fn, *_copy(a), **_copy(k))
             ne += 1
             ctx.ev(2)
             if repr(_norm(alt)) != repr(_norm(base)):
-                ctx.violation("result-depends-on-numpy-error-state:" + _name(fn).split(".")[-1], function=_name(fn), args=repr(a)[:300],
+                ctx.violation("result-depends-on-error-and-warning-policy:" + _name(fn).split(".")[-1], function=_name(fn), args=repr(a)[:300],
                               default_state=repr(_norm(base))[:300], errors_raised=repr(_norm(alt))[:300], monitor="replay", case=None)
     ctx.hit("replay_with_fp_errors_raised", ne)
     # phase 1h: real-valued arguments handed over as 0-d numpy arrays (an element picked with track[i, ...], an xarray value):
